@@ -20,6 +20,7 @@ import (
 	"bytes"
 	"encoding/binary"
 	"errors"
+	"fmt"
 	"io"
 )
 
@@ -63,6 +64,15 @@ func (r *ComDoc) writeSector(sector SecID, content []byte) error {
 	}
 	_, err := r.writer.WriteAt(content, r.sectorToOffset(sector))
 	return err
+}
+
+// Look up which sector follows the given one in its chain. Sector IDs come
+// from the file so they might not be covered by the allocation table.
+func chainNext(sat []SecID, sector SecID) (SecID, error) {
+	if sector < 0 || int(sector) >= len(sat) {
+		return 0, fmt.Errorf("sector %d is outside of the allocation table", sector)
+	}
+	return sat[sector], nil
 }
 
 // Mark a chain of sectors as free
